@@ -89,7 +89,7 @@ theorem importSet_group {C : Coll σ} (ok : CollOK C) (p : Policy) (s : σ) (h :
         · exact Or.inr (Or.inr (Or.inl ⟨rfl, rfl⟩))
         · rw [he0, unionAsc_nil_left hsyn.1]
         · rw [he0]; simp [length_filter_true]
-      · have hlen := length_unionAsc (a := hget h i) (b := syn) hold.1 (asc_nodup hsyn.1)
+      · have hlen := length_unionAsc (a := hget h i) (b := syn) hold.1 hsyn.1
         have hcu := cellOK_unionAsc hold hsyn
         by_cases hfr : p.unionFresh (hget h i) syn = true
         · by_cases hch : (unionAsc (hget h i) syn).length = (hget h i).length
@@ -97,7 +97,7 @@ theorem importSet_group {C : Coll σ} (ok : CollOK C) (p : Policy) (s : σ) (h :
             · simp [importSetFn, cN, hfull, hemp, hfr, hch]
             · exact hold
             · exact Or.inl ⟨[unionAsc (hget h i) syn], rfl, rfl, rfl⟩
-            · exact (unionAsc_eq_of_length hold.1 hch).symm
+            · exact (unionAsc_eq_of_length hold.1 hsyn.1 hch).symm
             · omega
           · apply fin (h ++ [unionAsc (hget h i) syn])
               (n + ((unionAsc (hget h i) syn).length - (hget h i).length)) (some h.length) true
